@@ -246,7 +246,14 @@ def check_case(ctx, fl, c, rng, origin, approx=False, real=None, heavy=False):
                     for enc in (False, True):
                         ctx.count()
                         try:
-                            code = fl.PythonExporter(formatted=formatted, encapsulated=enc).to_string(real_)
+                            # every second export goes through ONE long-lived exporter per (formatted, encapsulated), created before
+                            # any alias was switched: what it writes must follow the alias in force at the time of the export
+                            pool_ = check_case.__dict__.setdefault("exporters", {})
+                            check_case.__dict__["exports"] = check_case.__dict__.get("exports", 0) + 1
+                            if (check_case.__dict__["exports"] - 1) // 8 % 2 == 0:       # (four exports under each of two aliases per engine: alternate by engine)
+                                code = pool_[(formatted, enc)].to_string(real_) if (formatted, enc) in pool_ else fl.PythonExporter(formatted=formatted, encapsulated=enc).to_string(real_)
+                            else:
+                                code = fl.PythonExporter(formatted=formatted, encapsulated=enc).to_string(real_)
                             ns2: dict = {}
                             if enc:
                                 exec(code, ns2)
@@ -268,6 +275,7 @@ def check_case(ctx, fl, c, rng, origin, approx=False, real=None, heavy=False):
 
 def run(ctx: core.Ctx):
     fl = core.import_fuzzylite()
+    check_case.__dict__["exporters"] = {(f_, e_): fl.PythonExporter(formatted=f_, encapsulated=e_) for f_ in (False, True) for e_ in (False, True)}
     rng = random.Random(ctx.seed)
     decs = "{3}" if ctx.quick else "{0, 3, 9}"
     r = ctx.tlc("MC_PyRepr", write_cfg("MC_PyRepr", HEAD.format(ff="FALSE", e="FALSE", c="FALSE", d=decs) + "INVARIANT Rebuilds\nCHECK_DEADLOCK FALSE\n"), workers=16, timeout=3000)
